@@ -30,7 +30,7 @@ REG["C01"] = {
     "level_note": _NOTE,
 }
 REG["C15"] = {
-    "technique": "TLC model checking of MC_C01.tla in iteration mode (one imap task per file, every start/finish interleaving, IterRefines: bag equality + exactly-once) + replay of each behaviour with the scheduled pool; stream.iter(bsel) replayed against ReadSpec + trace validation at scale: histories of real operations on large generated inputs and repository assets judged by spec/trace/OpTrace.tla with the same requirement operator",
+    "technique": "TLC model checking of MC_C01.tla in iteration mode (one imap task per file, every start/finish interleaving, IterRefines: bag equality + exactly-once) + replay of each behaviour with the scheduled pool; stream.iter(bsel) replayed against ReadSpec + trace validation at scale: histories of real operations on large generated inputs and repository assets judged by spec/trace/OpTrace.tla with the same requirement operator + PoolLife.tla (life time of a pool referenced only by its imap iterator; NoWedge / CallerFinishes) with the wedging schedule imposed on genuine process pools in an abandonable child process",
     "level_text": ("Every completion order of the per-file read tasks for <=4 boxes over <=3 files and every field selector form is explored by TLC and "
                    "replayed into the real iterator (termination guarded by a yield budget); the on-demand iterator is replayed for all slice/list/mask selections."),
     "level_note": _NOTE,
@@ -139,7 +139,7 @@ REG["C18"] = {
 }
 
 REG["C12"] = {
-    "technique": "TLC model checking of MC_C12.tla over Pool.tla (every Start/Finish/Deliver interleaving for map, imap, imap_unordered with n<=4 tasks on W<=4 workers; ScheduleFree) + imposing every emitted completion order on 13 real tool entry points (scheduled in-process pool; thorough: real worker processes with forced start/finish order, W up to 16) with byte-for-byte output comparison + PoolTrace.tla trace validation of the recorded pool usage",
+    "technique": "TLC model checking of MC_C12.tla over Pool.tla (every Start/Finish/Deliver interleaving for map, imap, imap_unordered with n<=4 tasks on W<=4 workers; ScheduleFree) + imposing every emitted completion order on 16 real tool drivers (incl. taste on damaged inputs) (scheduled in-process pool; thorough: real worker processes with forced start/finish order, W up to 16) with byte-for-byte output comparison + PoolTrace.tla trace validation of the recorded pool usage + PoolLife.tla (life time of a pool referenced only by its imap iterator; NoWedge / CallerFinishes) with the wedging schedule imposed on genuine process pools in an abandonable child process",
     "level_text": ("All n! completion orders for n = 1..4 tasks per pool call are enumerated by TLC and imposed on reader selections / iteration, taste, colander, combine (byfile and bybox), chef, mandoline (3-D return/array, 2-D), pestle, whip and chk2plt, "
                    "on inputs whose tasks differ in size; files are compared as raw bytes (npz by member payload), returned values bitwise, serial modes against parallel; the recorded Submit/Start/Finish/Deliver events are validated as behaviours of Pool.tla."),
     "level_note": _NOTE + " Histories of two cooks in one process on a cached pathos pool are outside this check.",
